@@ -30,6 +30,7 @@ func Ite(c bool, a, b int) int         { return a }
 func IteByte(c bool, a, b byte) byte   { return a }
 func BytesEq(a, b []byte) bool         { return false }
 func StrEq(a, b string) bool           { return false }
+func SameState(a, b any) bool          { return false }
 func Observe(name string, v any)       {}
 func ExpectPanic(ok bool)              {}
 func Symbolic() bool                   { return true }
